@@ -27,94 +27,7 @@ PY = "/venv/bin/python"
 DEFAULT_FILES = ["adb_device.py", "hidden_helpers.py", "adb_message.py", "constants.py", "transport/tcp_transport.py", "transport/tcp_transport_async.py",
                  "auth/keygen.py", "auth/sign_cryptography.py", "auth/sign_pythonrsa.py", "auth/sign_pycryptodome.py"]
 
-CMP = {ast.Eq: [ast.NotEq], ast.NotEq: [ast.Eq], ast.Lt: [ast.LtE, ast.Gt], ast.LtE: [ast.Lt], ast.Gt: [ast.GtE, ast.Lt], ast.GtE: [ast.Gt],
-       ast.In: [ast.NotIn], ast.NotIn: [ast.In], ast.Is: [ast.IsNot], ast.IsNot: [ast.Is]}
-CMDS = ["AUTH", "CLSE", "CNXN", "OKAY", "OPEN", "WRTE", "DATA", "DENT", "DONE", "FAIL", "LIST", "RECV", "SEND", "STAT"]
-
-
-def mutants_of(tree):
-    """Yield (description, lineno, mutated_tree)."""
-    nodes = list(ast.walk(tree))
-    # parent map for statement deletion
-    for idx, n in enumerate(nodes):
-        if isinstance(n, ast.Compare) and len(n.ops) == 1:
-            for new in CMP.get(type(n.ops[0]), []):
-                yield ("cmp %s->%s" % (type(n.ops[0]).__name__, new.__name__), n.lineno, ("cmp", idx, new))
-        if isinstance(n, ast.BoolOp):
-            yield ("boolop swap", n.lineno, ("boolop", idx))
-        if isinstance(n, ast.UnaryOp) and isinstance(n.op, ast.Not):
-            yield ("drop not", n.lineno, ("dropnot", idx))
-        if isinstance(n, ast.Constant) and isinstance(n.value, int) and not isinstance(n.value, bool) and hasattr(n, "lineno"):
-            for d in (1, -1):
-                yield ("const %d->%d" % (n.value, n.value + d), n.lineno, ("const", idx, n.value + d))
-        if isinstance(n, ast.Constant) and isinstance(n.value, bool) and hasattr(n, "lineno"):
-            yield ("bool flip", n.lineno, ("const", idx, not n.value))
-        if isinstance(n, ast.Call) and len(n.args) >= 2 and not any(isinstance(a, ast.Starred) for a in n.args):
-            for i in range(len(n.args) - 1):
-                yield ("swap args %d,%d of %s" % (i, i + 1, ast.unparse(n.func)[:30]), n.lineno, ("swap", idx, i))
-        if isinstance(n, ast.Attribute) and isinstance(n.value, ast.Name) and n.value.id == "constants" and n.attr in CMDS:
-            for other in CMDS:
-                if other != n.attr and abs(CMDS.index(other) - CMDS.index(n.attr)) <= 2:
-                    yield ("constants.%s->%s" % (n.attr, other), n.lineno, ("attr", idx, other))
-        if isinstance(n, ast.Break):
-            yield ("break->continue", n.lineno, ("replace_stmt", idx, "continue"))
-        if isinstance(n, ast.Continue):
-            yield ("continue->break", n.lineno, ("replace_stmt", idx, "break"))
-        if isinstance(n, (ast.BinOp,)) and isinstance(n.op, (ast.Add, ast.Sub)):
-            yield ("binop +/-", n.lineno, ("binop", idx))
-        if isinstance(n, (ast.FunctionDef, ast.AsyncFunctionDef, ast.If, ast.While, ast.For, ast.AsyncFor, ast.With, ast.AsyncWith, ast.Try)):
-            for field in ("body", "orelse", "finalbody"):
-                body = getattr(n, field, None)
-                if not isinstance(body, list):
-                    continue
-                for j, st in enumerate(body):
-                    if isinstance(st, (ast.Expr, ast.Assign, ast.AugAssign)) and not (isinstance(st, ast.Expr) and isinstance(st.value, ast.Constant)):
-                        if len(body) > 1 or True:
-                            yield ("delete `%s`" % ast.unparse(st)[:50].replace("\n", " "), st.lineno, ("delete", idx, field, j))
-
-
-def apply(tree, op):
-    t = copy.deepcopy(tree)
-    nodes = list(ast.walk(t))
-    kind = op[0]
-    n = nodes[op[1]]
-    if kind == "cmp":
-        n.ops = [op[2]()]
-    elif kind == "boolop":
-        n.op = ast.Or() if isinstance(n.op, ast.And) else ast.And()
-    elif kind == "dropnot":
-        # replace `not x` by `x`: mutate in place into a no-op unary via double negation removal
-        n.op = ast.UAdd() if False else n.op
-        parent_replace(t, n, n.operand)
-    elif kind == "const":
-        n.value = op[2]
-    elif kind == "swap":
-        i = op[2]
-        n.args[i], n.args[i + 1] = n.args[i + 1], n.args[i]
-    elif kind == "attr":
-        n.attr = op[2]
-    elif kind == "replace_stmt":
-        parent_replace(t, n, ast.Continue() if op[2] == "continue" else ast.Break())
-    elif kind == "binop":
-        n.op = ast.Sub() if isinstance(n.op, ast.Add) else ast.Add()
-    elif kind == "delete":
-        body = getattr(n, op[2])
-        body[op[3]] = ast.Pass()
-    ast.fix_missing_locations(t)
-    return t
-
-
-def parent_replace(tree, old, new):
-    for p in ast.walk(tree):
-        for field, val in ast.iter_fields(p):
-            if val is old:
-                setattr(p, field, new)
-                return
-            if isinstance(val, list):
-                for i, x in enumerate(val):
-                    if x is old:
-                        val[i] = new
-                        return
+from sa.sweep import mutants_of, apply   # noqa: E402
 
 
 def analyse(args):
